@@ -14,7 +14,7 @@ PROPERTY = "C02"
 LEVEL = "exploration"
 NSHARD = 16
 SHARD_TIMEOUT = {"quick": 900, "thorough": 3600}
-VALUE_CODES = {"reward", "overspend", "tx-range", "tx-noout", "cb-shape", "nullref", "nonsig", "missing-input"}
+VALUE_CODES = {"reward", "overspend", "tx-range", "tx-noout", "cb-shape", "nullref", "nonsig", "missing-input", "dup-ref-block", "dup-tx"}
 
 
 def shards(tier, seed):
